@@ -276,7 +276,7 @@ def work(job):
     idx, mut, new_src, do_tests = job
     tmp = tempfile.mkdtemp(prefix="asynq-ms-")
     try:
-        subprocess.run("git -C /repo archive HEAD | tar -x -C %s" % tmp, shell=True, check=True)
+        shutil.copytree("/tmp/mutsurvey/template", tmp, dirs_exist_ok=True)
         with open(os.path.join(tmp, "asynq", mut.module + ".py"), "w") as f:
             f.write(new_src)
         fired, errors = run_checks(tmp)
@@ -310,6 +310,9 @@ def main():
         elif a == "--no-tests":
             do_tests = False
     os.makedirs(OUT, exist_ok=True)
+    shutil.rmtree(os.path.join(OUT, "template"), ignore_errors=True)
+    os.makedirs(os.path.join(OUT, "template"))
+    subprocess.run("git -C /repo archive HEAD | tar -x -C %s/template" % OUT, shell=True, check=True)
     work_items = []
     for m in mods:
         for mut, new in gen_mutants(m):
